@@ -19,7 +19,7 @@ func Run(tier string, seed uint64, modelPath, repo string, out *res.Result) erro
 	r := rng.New(seed)
 	nF, nG := 4000, 2000
 	if tier == "thorough" {
-		nF, nG = 100000, 40000
+		nF, nG = 60000, 25000
 	}
 	out.Rule = "class F: documents generated from an abstract tree (html>body>1-5 blocks, nesting<=4, paragraphs of 1-8 <br>-separated unique 3-char tokens, " +
 		"font 20px/20px Ahem, page content heights 40-215px, break-before/after (auto avoid page left right recto verso), break-inside, orphans/widows 1-4, " +
